@@ -405,6 +405,66 @@ example : 0 < Real.sin ((pradians 0 - pradians 0) / 2) ^ 2 * Real.cos ((pradians
     nlinarith
   nlinarith [sq_nonneg (Real.sin ((pradians 0 - pradians 0) / 2)), sq_nonneg (Real.cos (-(π / 4)))]
 
+/-- "equals … the integral of the meridian radius of curvature along a meridian (1e-4)" — PARTIAL.  Proved, for two
+    distinct points of one meridian less than 180° apart: the spherical angle of Andoyer's formula is exactly the
+    latitude difference, and the result lies between `(1 − 2.5 f)` and `(1 + f)` times `a |Δφ|`.  Since the meridian
+    radius of curvature lies between `b²/a = a(1−f)²` and `a²/b = a/(1−f)` (`rm_monotone`), the meridian arc lies
+    between those multiples of `|Δφ|`, so both agree to a few `f`.
+    NOT proved (evaluated on the implementation against a quadrature): the 1e-4 of the statement — it needs the
+    second-order expansion of the arc integral in `f`, and is false for `f ∈ (0.0099, 0.01]` (listed finding). -/
+theorem distance_meridian_partial {el : Ell} (h : Valid el) (lon : ℝ) {lat1 lat2 : ℝ} (hne : lat1 ≠ lat2)
+    (hlt : |lat1 - lat2| < 180) :
+    ∃ d err, distance el lon lat1 lon lat2 = .ok (d, err) ∧
+      (1 - 5 / 2 * el.f) * (el.a * |pradians lat1 - pradians lat2|) ≤ d ∧
+      d ≤ (1 + el.f) * (el.a * |pradians lat1 - pradians lat2|) := by
+  have hpi := Real.pi_pos
+  obtain ⟨G, hG⟩ : ∃ G, G = (pradians lat1 - pradians lat2) / 2 := ⟨_, rfl⟩
+  have hGe : G = (lat1 - lat2) * (π / 360) := by rw [hG]; unfold pradians; ring
+  have hGabs : |G| < π / 2 := by
+    rw [hGe, abs_mul, abs_of_pos (by positivity : (0:ℝ) < π / 360)]
+    calc |lat1 - lat2| * (π / 360) < 180 * (π / 360) := mul_lt_mul_of_pos_right hlt (by positivity)
+      _ = π / 2 := by ring
+  have hG0 : G ≠ 0 := by
+    rw [hGe]; exact mul_ne_zero (sub_ne_zero.mpr hne) (by positivity)
+  have hcos : 0 < Real.cos G := Real.cos_pos_of_mem_Ioo ⟨(abs_lt.mp hGabs).1, (abs_lt.mp hGabs).2⟩
+  have hsin : Real.sin G ≠ 0 := by
+    intro hs
+    exact hG0 ((Real.sin_eq_zero_iff_of_lt_of_lt (by linarith [(abs_lt.mp hGabs).1]) (by linarith [(abs_lt.mp hGabs).2])).mp hs)
+  have hL : (pradians lon - pradians lon) / 2 = 0 := by ring
+  have key := distance_near_great_circle_partial h lon lat1 lon lat2
+  simp only [hL, Real.sin_zero, Real.cos_zero, ← hG] at key
+  have hs : 0 < Real.sin G ^ 2 * 1 ^ 2 + Real.cos ((pradians lat1 + pradians lat2) / 2) ^ 2 * 0 ^ 2 := by
+    have : 0 < Real.sin G ^ 2 := by positivity
+    nlinarith
+  have hc : 0 < Real.cos G ^ 2 * 1 ^ 2 + Real.sin ((pradians lat1 + pradians lat2) / 2) ^ 2 * 0 ^ 2 := by
+    have : 0 < Real.cos G ^ 2 := by positivity
+    nlinarith
+  obtain ⟨d, err, hd, lo, hi, _⟩ := key hs hc
+  refine ⟨d, err, hd, ?_, ?_⟩
+  all_goals
+    have hsq : Real.sin G ^ 2 * 1 ^ 2 + Real.cos ((pradians lat1 + pradians lat2) / 2) ^ 2 * 0 ^ 2 = Real.sin G ^ 2 := by ring
+    have hang : Real.arcsin (Real.sqrt (Real.sin G ^ 2)) = |G| := by
+      rw [Real.sqrt_sq_eq_abs]
+      rcases abs_choice G with hg | hg
+      · have : 0 ≤ G := abs_eq_self.mp hg
+        rw [hg, abs_of_nonneg (Real.sin_nonneg_of_nonneg_of_le_pi this (by linarith [(abs_lt.mp hGabs).2]))]
+        exact Real.arcsin_sin (by linarith) (by linarith [(abs_lt.mp hGabs).2])
+      · have hn : G ≤ 0 := abs_eq_neg_self.mp hg
+        rw [hg, abs_of_nonpos (Real.sin_nonpos_of_nonpos_of_neg_pi_le hn (by linarith [(abs_lt.mp hGabs).1])), ← Real.sin_neg]
+        exact Real.arcsin_sin (by linarith [(abs_lt.mp hGabs).2]) (by linarith [(abs_lt.mp hGabs).1])
+    rw [hsq, hang] at lo hi
+    have e : el.a * |pradians lat1 - pradians lat2| = 2 * |G| * el.a := by
+      have : pradians lat1 - pradians lat2 = 2 * G := by rw [hG]; ring
+      rw [this, abs_mul, abs_of_pos (by norm_num : (0:ℝ) < 2)]; ring
+    rw [e]
+  · exact lo
+  · exact hi
+
+example : ∃ d err, distance WGS84 33 0 33 10 = .ok (d, err) ∧
+    (1 - 5 / 2 * WGS84.f) * (WGS84.a * |pradians 0 - pradians 10|) ≤ d ∧
+    d ≤ (1 + WGS84.f) * (WGS84.a * |pradians 0 - pradians 10|) :=
+  distance_meridian_partial wgs84_valid 33 (by norm_num) (by norm_num [abs_lt])
+
 /-- Antipodal points: the property promises nothing beyond symmetry.  In exact real arithmetic the model divides by
     zero (`c = 0`): `distance(λ, φ, λ + 180°, −φ)` is a `ZeroDivisionError`.  (In binary64 `cos(π/2) ≠ 0`, so the
     implementation returns a finite value there; see the harness class `distance/antipodal`.) -/
